@@ -48,4 +48,24 @@ def soc (s : Store) (conv : Rat → Rat) (ps : List Rat) (tb : TimeBase) : Optio
 def socAcc (s : Store) (conv : Rat → Rat) (ps dts : List Rat) : List Rat :=
   (energyAcc s conv ps dts).map (socOf s)
 
+/-! ### A constant held as a single value (it stands for the whole series: repo 4fdb0b1, 1712c67) -/
+
+def spread (ps : List Rat) (n : Nat) : List Rat :=
+  match ps with
+  | [p] => List.replicate n p
+  | _ => ps
+
+def energyC (s : Store) (conv : Rat → Rat) (ps : List Rat) : TimeBase → Option Rat
+  | .series dts => energy s conv (spread ps dts.length) (.series dts)
+  | tb => energy s conv ps tb
+
+def energyAccC (s : Store) (conv : Rat → Rat) (ps dts : List Rat) : List Rat :=
+  energyAcc s conv (spread ps dts.length) dts
+
+def socC (s : Store) (conv : Rat → Rat) (ps : List Rat) (tb : TimeBase) : Option Rat :=
+  (energyC s conv ps tb).map (socOf s)
+
+def socAccC (s : Store) (conv : Rat → Rat) (ps dts : List Rat) : List Rat :=
+  (energyAccC s conv ps dts).map (socOf s)
+
 end Feems.Storage
